@@ -7,13 +7,26 @@ From C15 Require Import Model.
 Import ListNotations.
 Local Open Scope N_scope.
 
-(* the advance the font gives a glyph: 0 for GDEF marks, the glyph's width
-   otherwise; None when the glyph does not exist *)
+(* the advance the font gives a glyph: 0 for a glyph id the font does not
+   have (>= NumGlyphs; fixes/C07-layout-gid-beyond-font.diff), 0 for GDEF
+   marks, the glyph's width otherwise; None when a glyph below NumGlyphs has
+   no entry in the width slice (GlyphWidth indexes out of range) *)
 Definition S_advance (o : outlines) (gdef : option (list (N * N))) (gid : N) : option Z :=
-  if is_mark gdef gid then Some 0%Z
+  if num_glyphs o <=? gid then Some 0%Z
+  else if is_mark gdef gid then Some 0%Z
   else match glyph_width o gid with Ok w => Some w | _ => None end.
 
-(* every character of the string maps to an existing glyph (or a mark) *)
+(* the width slice has one entry per glyph: what sfnt.Read delivers (glyf:
+   hmtx is read for NumGlyphs glyphs; CFF: the width is part of the glyph) *)
+Definition outlines_consistent (o : outlines) : Prop :=
+  match o with
+  | OGlyf n (Some w) => n = N.of_nat (length w)
+  | OGlyf _ None => True      (* GlyphWidth returns 0 for every glyph *)
+  | OCff _ => True
+  end.
+
+(* no character of the string maps to a glyph below NumGlyphs that lacks a
+   width (always true for consistent outlines: glyphs_exist_consistent) *)
 Definition glyphs_exist (cm : list (N * N)) (o : outlines) (gdef : option (list (N * N))) (s : list N) : Prop :=
   forall r, In r s -> S_advance o gdef (cmap_lookup cm r) <> None.
 
